@@ -57,6 +57,12 @@ def gen_focused(rng, cfg):
     """One snippet, two settings that matter for it, alternated across calls, processes and kills."""
     si = rng.choice(sorted(SENSITIVE))
     s1, s2 = rng.sample(SENSITIVE[si], 2)
+    if si in (2, 4) and rng.random() < 0.5:
+        # the language level handed over in two different ways / two different levels through the directives dict
+        lv = rng.sample([2, 3, "3str"], 2)
+        var = SENSITIVE[si][0][2]
+        s1, s2 = rng.choice([(({"language_level": lv[0]}, None, var), ({"language_level": lv[1]}, None, var)),
+                             (({"language_level": lv[0]}, None, var), (None, lv[1], var))])
     for _ in range(3):      # prefer pairs that differ in directives/level only (same argument types => same module signature)
         if s1[2] == s2[2]:
             break
